@@ -56,6 +56,7 @@ class Ctx:
         self.assumptions = []
         self.consulted = set()
         self.extra = {}
+        self.errors = []
         self._ty = None
         self._eff = None
         self.t0 = time.time()
@@ -89,6 +90,14 @@ class Ctx:
     def module(self, rel):
         self.consulted.add(rel)
         return self.prog.module(rel)
+
+    def guard(self, fn, *args):
+        """Run one rule group; an AnalysisError in it does not hide the
+        findings of the other groups."""
+        try:
+            fn(self, *args)
+        except AnalysisError as e:
+            self.errors.append(str(e))
 
     def require(self, cond, msg):
         if not cond:
@@ -183,6 +192,8 @@ def finish(ctx, explanation, rule_text, emit=print):
         emit("VIOLATION property=%s replay=%s" % (ctx.prop, path))
     for m in ctx.infos:
         emit("INFO: " + m)
+    for m in ctx.errors:
+        emit("ANALYSIS-ERROR property=%s: %s" % (ctx.prop, m))
 
     obligations = len(ctx.obligations)
     discharged = sum(1 for o in ctx.obligations if o["status"] == "discharged")
@@ -214,6 +225,7 @@ def finish(ctx, explanation, rule_text, emit=print):
         "known_findings_reported": [f.as_dict() for f, _ in knowns],
         "stale_known_findings": [known_key(e)[1:] for e in stale],
         "violations_reported": [f.as_dict() for f in violations],
+        "analysis_errors": list(ctx.errors),
     }
     cov.update(ctx.extra)
     if ctx._eff is not None:
@@ -232,4 +244,6 @@ def finish(ctx, explanation, rule_text, emit=print):
          "%d violation(s), %.2fs"
          % (ctx.prop, ctx.tier, obligations, discharged, len(knowns),
             len(violations), time.time() - ctx.t0))
-    return 1 if violations else 0
+    if violations:
+        return 1
+    return 2 if ctx.errors else 0
